@@ -97,10 +97,10 @@ def nt_index(suite, case, impl):
 
 PROPS = {
     "C15": {
-        "suites": [("index", 1500, 20000)], "props": ["C15"], "level": "proof",
+        "suites": [("index", 1500, 20000), ("indexsrc", 400, 6000)], "props": ["C15"], "level": "proof",
         "nontrivial": nt_index,
         "technique": "Lean 4 theorems (indexer invariant by induction over ascending blocks, bitmap-as-ascending-list algebra, scan = filter on sorted lists) + differential correspondence of BlockIndexer/GenericBlockIndexProvider over generated key assignments",
-        "level_text": "written_files_exact: every index file written while feeding strictly ascending blocks from a boundary holds, per key, exactly the fed blocks of its range carrying that key; blocksInRange_spec/_mem/_ascending: the provider returns exactly the matching indexed blocks of [max(base,fsb), base+size), ascending; upper_bound_exclusive pins the bound the unfixed code got wrong. The file-source half of C15 is covered by the filesrc suite (sequential model) without a closed-form theorem yet.",
+        "level_text": "written_files_exact: every index file written while feeding strictly ascending blocks from a boundary holds, per key, exactly the fed blocks of its range carrying that key; blocksInRange_spec/_mem/_ascending: the provider returns exactly the matching indexed blocks of [max(base,fsb), base+size), ascending; upper_bound_exclusive pins the bound the unfixed code got wrong. The file-source half of C15 (lookupBlockIndex / tweakRangeIndexResults / PassesFilter / fallback when the index ends) has a sequential model (FileSourceSeq.runWithIndex) tied to the real FileSource by the indexsrc suite (provider given as a table: nil / empty / numbers incl. skipped and out-of-range ones / index ending or with a gap; whitelisted blocks; start and stop anywhere) and an independent Lean monitor (ascending, each once, no indexed match between start and stop lost); no closed-form theorem yet.",
         "level_note": LEVEL_NOTE_COMMON + "roaring64 bitmaps modelled as ascending lists (finite sets); protobuf encoding of index files not modelled (files are records); MockStore without overwrite.",
         "rule": "cases = one BlockIndexer (index size = bundle x {1,2,3,10}, bundle in {1,2,5,10}, fsb 0-3, optional defined start block) fed 5-44 ascending blocks (skipped numbers, occasional jump over a whole index range, start on/off a boundary) with random subsets of 8 keys, then 1-3 providers (exact or prefix key filters, possibleIndexSizes lists incl. sizes below the bundle size) queried at every bundle base of the range (1 in 25 off boundary); distinct = sha1 of header+ops; non-trivial = at least two non-empty query answers",
         "explanation": "model answers compared op by op; an independent monitor recomputes, from the add ops alone, which blocks each query must return",
